@@ -9,7 +9,10 @@ from common import sub_seed, size
 THEOREMS = ["LNN.C16_leaves_invariant",
             "LNN.C16_reset_restores",
             "LNN.C16_rerun_equal",
-            "LNN.C16_second_run"]
+            "LNN.C16_second_run",
+            "LNN.C16_fol_data_untouched",
+            "LNN.C16_fol_reset_after_inference",
+            "LNN.C16_fol_reset_reads_data"]
 MODULES = ["LnnVerif.Props.C16"]
 FACETS = {"bounds", "reported"}
 
